@@ -97,7 +97,6 @@ env_proof! {
     fn c11_rotation() {
         let cfg = mk_config(None, None, None, None);
         let mut rl: RaftLog<KTypes> = open_empty(cfg);
-        gfs::fs().track_bytes = true;
         let old_id = rl.wal.open.chunk.chunk_id();
         let v: Id = kani::any();
         unsafe { crate::raft_log::wal::kani_h_a_wal::ROTATE_NOW = true; }
